@@ -174,6 +174,7 @@ const (
 	vOpDelete
 	vOpRevert
 	vOpMerge
+	vOpCompact
 )
 
 type vOp struct {
@@ -222,6 +223,18 @@ func (o *vOp) run(ctx context.Context, eng *vEngine) {
 			break
 		}
 		o.id, o.err = child.mergeInto(ctx, parent, "author", "message")
+	case vOpCompact:
+		// exec.Compact hands the source objects and the rollup it has written to CommitCompact
+		var src, rollup []*data.Object
+		for _, i := range o.dels {
+			obj := vDataObject(i)
+			src = append(src, &obj)
+		}
+		for _, i := range o.adds {
+			obj := vDataObject(i)
+			rollup = append(rollup, &obj)
+		}
+		o.id, o.err = b.CommitCompact(ctx, src, rollup, nil, "author", "message", "")
 	}
 	o.done = true
 	eng.client = saved
@@ -260,10 +273,10 @@ func (o *vOp) apply(st *vObjSet) bool {
 			}
 		}
 		return changed
-	case vOpMerge:
+	case vOpMerge, vOpCompact:
 		for _, i := range o.dels {
 			if !st[i] {
-				return false // delete conflict
+				return false // delete conflict / source object gone
 			}
 		}
 		for _, i := range o.adds {
@@ -560,8 +573,8 @@ func vTwoOps(fill bool, hist, child int, mk func(s *vSetup, ha, hb *vHandle) (a,
 	return s, a, b, order, eng
 }
 
-// verif:desc C12-O3 real lake.Branch.Delete (ids looked up in commits.Store.Snapshot of the tip the commit will be parented on; Snapshot incl. getSnapshot/putSnapshot files; Branch.commit retry loop) for client A, preempted once at any storage call by client B's whole operation (separate handles). Scenarios: both delete the same object; different objects; delete vs a load; load vs delete. Asserted with fresh handles: the acknowledged operations, replayed one at a time in the order of main's parent chain, are each valid on the tip they replaced (so the same object is never deleted twice) and give exactly the contents of the real tip snapshot, which replays without error; chain = history + acknowledged commits once each; no commit object / journal entry of a failed operation remains; earlier commits read as before.
-// verif:bounds main = one commit adding objects {0,1}; 4 scenarios; 2 clients, 1 operation each, <= 1 preemption of A at every storage call; atomic-put storage
+// verif:desc C12-O3 real lake.Branch.Delete (ids looked up in commits.Store.Snapshot of the tip the commit will be parented on; Snapshot incl. getSnapshot/putSnapshot files; Branch.commit retry loop) for client A, preempted once at any storage call by client B's whole operation (separate handles). Scenarios: both delete the same object; different objects; delete vs a load; load vs delete; Branch.CommitCompact of {0,1} into a new object vs delete of 0; delete of 1 vs that compaction. Asserted with fresh handles: the acknowledged operations, replayed one at a time in the order of main's parent chain, are each valid on the tip they replaced (so the same object is never deleted twice) and give exactly the contents of the real tip snapshot, which replays without error; chain = history + acknowledged commits once each; no commit object / journal entry of a failed operation remains; earlier commits read as before.
+// verif:bounds main = one commit adding objects {0,1}; 6 scenarios; 2 clients, 1 operation each, <= 1 preemption of A at every storage call; atomic-put storage
 // verif:outside > 1 preemption; DeleteWhere (needs the query compiler and lake.Writer goroutines: not reachable); create-then-fill puts (thorough _fill variant)
 func VerifH_C12_O3_concurrent_delete() { vConcurrentDelete(false) }
 
@@ -572,9 +585,13 @@ func VerifH_C12_O3_concurrent_delete() { vConcurrentDelete(false) }
 func VerifH_C12_O3_concurrent_delete_fill() { vConcurrentDelete(true) }
 
 func vConcurrentDelete(fill bool) {
-	sc := verif.Choose("scenario", 4)
+	sc := verif.Choose("scenario", 6)
 	_, a, b, _, _ := vTwoOps(fill, 1, 0, func(s *vSetup, ha, hb *vHandle) (*vOp, *vOp) {
 		switch sc {
+		case 4:
+			return &vOp{kind: vOpCompact, dels: []int{0, 1}, adds: []int{2}, h: ha}, &vOp{kind: vOpDelete, obj: 0, h: hb}
+		case 5:
+			return &vOp{kind: vOpDelete, obj: 1, h: ha}, &vOp{kind: vOpCompact, dels: []int{0, 1}, adds: []int{3}, h: hb}
 		case 0:
 			return &vOp{kind: vOpDelete, obj: 0, h: ha}, &vOp{kind: vOpDelete, obj: 0, h: hb}
 		case 1:
@@ -727,7 +744,6 @@ func VerifH_C15_O7_branch_revert_twice() {
 // ---------------------------------------------------------------------------
 // C17-O2 crash inside Branch.commit
 // ---------------------------------------------------------------------------
-
 
 func vBranchCrash(fill bool) {
 	ctx := context.Background()
@@ -1129,3 +1145,363 @@ func VerifH_C12_O4_pool_names() {
 	}
 	verif.Reach("end")
 }
+
+// ---------------------------------------------------------------------------
+// C12-O5 branch name table
+// ---------------------------------------------------------------------------
+
+const (
+	vBranchCreate = iota // create branch "child" at main's tip
+	vBranchRemove        // remove branch "child"
+	vBranchCommit        // commit (load of one object) on "child"
+)
+
+type vBranchOp struct {
+	kind int
+	obj  int
+	h    *vHandle
+	at   ksuid.KSUID // create: parent commit
+
+	done bool
+	err  error
+	id   ksuid.KSUID // commit: the new commit
+}
+
+func (o *vBranchOp) run(ctx context.Context, eng *vEngine) {
+	saved := eng.client
+	eng.client = o.h.id
+	switch o.kind {
+	case vBranchCreate:
+		_, o.err = o.h.root.CreateBranch(ctx, o.h.pool.ID, "child", o.at)
+	case vBranchRemove:
+		// Root.RemoveBranch after its OpenPool call
+		o.err = o.h.pool.removeBranch(ctx, "child")
+	case vBranchCommit:
+		cb, err := o.h.pool.OpenBranchByName(ctx, "child")
+		if err != nil {
+			o.err = err
+			break
+		}
+		o.id, o.err = cb.commit(ctx, func(parent *branches.Config, retries int) (*commits.Object, error) {
+			return vLoadObject(parent.Commit, retries, o.obj), nil
+		})
+	}
+	o.done = true
+	eng.client = saved
+}
+
+// vChildModel: whether "child" exists and the commits (beyond main's tip) on it.
+type vChildModel struct {
+	exists bool
+	tip    ksuid.KSUID
+	objs   vObjSet
+}
+
+func (o *vBranchOp) apply(m *vChildModel) bool {
+	switch o.kind {
+	case vBranchCreate:
+		if m.exists {
+			return false
+		}
+		m.exists, m.tip = true, o.at
+		return true
+	case vBranchRemove:
+		if !m.exists {
+			return false
+		}
+		m.exists = false
+		return true
+	case vBranchCommit:
+		if !m.exists || m.objs[o.obj] {
+			return false
+		}
+		m.tip = o.id
+		m.objs[o.obj] = true
+		return true
+	}
+	return false
+}
+
+// verif:desc C12-O5 real lake.Root.CreateBranch / lake.CreateBranch (branches.Store.Add), Pool.removeBranch (branches.Store.Remove with its "tip unchanged" constraint) and Branch.commit on the same branch name from two clients with separate handles, <= 1 preemption of A at any storage call. Asserted with fresh handles: branch names are unique; there is an order of the acknowledged operations in which each is valid one at a time (create: name free; remove: branch exists; commit: branch exists) and that yields exactly the listed branches and their tips (B after A: that order only); every listed branch's tip names a readable commit object whose snapshot replays and holds the expected objects; main is untouched; a failed operation leaves neither a journal entry nor a commit object.
+// verif:bounds pool with main = c1 adding {0,1}; scenarios: create child / create child (no child before); with child existing (one commit adding {4}): remove / commit, commit / remove, remove / remove, commit / commit; <= 1 preemption of A; atomic-put storage
+// verif:outside Root.RemoveBranch's OpenPool call (transcribed); > 1 preemption; removal refusing a branch that moved is allowed (a failed operation leaves no trace)
+func VerifH_C12_O5_branch_names() {
+	ctx := context.Background()
+	eng := vNewEngine(false)
+	sc := verif.Choose("scenario", 5)
+	child := 1
+	if sc == 0 {
+		child = 0
+	}
+	s := vSetupLake(ctx, eng, 1, child)
+	ha, err := vOpenClient(ctx, eng, 1)
+	verif.Assert(err == nil, "open-a")
+	hb, err := vOpenClient(ctx, eng, 2)
+	verif.Assert(err == nil, "open-b")
+	model := vChildModel{objs: s.state}
+	if child != 0 {
+		cfg, err := s.h0.pool.branches.LookupByName(ctx, "child")
+		verif.Assert(err == nil, "setup-child-listed")
+		if err != nil {
+			return
+		}
+		model.exists, model.tip = true, cfg.Commit
+		model.objs[4] = true
+	}
+	a, b := &vBranchOp{h: ha, at: s.tip()}, &vBranchOp{h: hb, at: s.tip()}
+	switch sc {
+	case 0:
+		a.kind, b.kind = vBranchCreate, vBranchCreate
+	case 1:
+		a.kind, b.kind, b.obj = vBranchRemove, vBranchCommit, 3
+	case 2:
+		a.kind, a.obj, b.kind = vBranchCommit, 2, vBranchRemove
+	case 3:
+		a.kind, b.kind = vBranchRemove, vBranchRemove
+	default:
+		a.kind, a.obj, b.kind, b.obj = vBranchCommit, 2, vBranchCommit, 3
+	}
+	preempted := false
+	eng.hook = func() {
+		if b.done {
+			return
+		}
+		if verif.Choose("preempt", 2) == 1 {
+			preempted = true
+			b.run(ctx, eng)
+		}
+	}
+	a.run(ctx, eng)
+	eng.hook = nil
+	if !b.done {
+		b.run(ctx, eng)
+	}
+	verif.Observe("preempted", preempted)
+	verif.Observe("outcomeA", a.err == nil)
+	verif.Observe("outcomeB", b.err == nil)
+
+	f, err := vOpenClient(ctx, eng, 9)
+	verif.Assert(err == nil, "reopens")
+	if err != nil {
+		return
+	}
+	list, err := f.pool.ListBranches(ctx)
+	verif.Assert(err == nil, "branches-listed")
+	if err != nil {
+		return
+	}
+	var childCfg *branches.Config
+	for i := range list {
+		for j := 0; j < i; j++ {
+			verif.Assert(list[i].Name != list[j].Name, "names-unique")
+		}
+		if list[i].Name == "child" {
+			childCfg = &list[i]
+		}
+		if list[i].Name == "main" {
+			verif.Assert(list[i].Commit == s.tip(), "main-untouched")
+		}
+	}
+	try := func(first, second *vBranchOp) (vChildModel, bool) {
+		m := model
+		for _, o := range []*vBranchOp{first, second} {
+			if o.err == nil && !o.apply(&m) {
+				return m, false
+			}
+		}
+		if m.exists != (childCfg != nil) {
+			return m, false
+		}
+		return m, !m.exists || m.tip == childCfg.Commit
+	}
+	m, linear := try(a, b)
+	if !linear && preempted {
+		m, linear = try(b, a)
+	}
+	verif.Assert(linear, "as-if-one-at-a-time")
+	verif.Assert(len(list) == 1 || (len(list) == 2 && childCfg != nil), "only-main-and-child-listed")
+	acked, ackedCommits := 0, 0
+	for _, o := range []*vBranchOp{a, b} {
+		if o.err == nil {
+			acked++
+			if o.kind == vBranchCommit {
+				ackedCommits++
+			}
+		}
+	}
+	if linear && childCfg != nil {
+		snap, err := f.pool.commits.Snapshot(ctx, childCfg.Commit)
+		verif.Assert(err == nil, "listed-branch-readable")
+		verif.Assert(err != nil || vSameSnap(snap, m.objs), "listed-branch-contents")
+	}
+	snap, err := f.pool.commits.Snapshot(ctx, s.tip())
+	verif.Assert(err == nil && vSameSnap(snap, s.state), "main-readable-and-unchanged")
+	verif.Assert(vCountFiles(eng, vPoolDir(f.pool, CommitsTag), vIsCommitObject) == s.commits+ackedCommits, "refused-commit-object-removed")
+	verif.Assert(vCountFiles(eng, vPoolDir(f.pool, BranchesTag), vIsJournalEntry) == s.entries+acked, "failed-operation-leaves-no-journal-entry")
+	if a.err == nil && b.err == nil {
+		verif.Reach("both-acknowledged")
+	}
+	if (a.err == nil) != (b.err == nil) {
+		verif.Reach("one-refused")
+	}
+	if preempted {
+		verif.Reach("preempted")
+	}
+	verif.Reach("end")
+}
+
+// ---------------------------------------------------------------------------
+// C13-O3 commit snapshot files read while / after they are written
+// ---------------------------------------------------------------------------
+
+// verif:desc C13-O3 real commits.Store.Snapshot (LRU, getSnapshot/putSnapshot of <commit>.snap.zng, fold of the commit chain) for the same commit from two clients with cold caches, client B's read running at any storage call of client A's read (A writes the persisted snapshot file), then a third cold client: every reader sees exactly the commit's contents, during and after the write of the derived file. Region split off: B reads while the file engine has created/truncated the snapshot file but not yet written it (/snap-truncated).
+// verif:bounds main = c1 adding {0,1}, optionally c2 deleting {0}; the commit read is the tip; atomic puts or create-then-fill puts; <= 1 preemption of A at every storage call
+// verif:outside torn writes inside one write call; queries (only the snapshot the scanner is built from)
+func VerifH_C13_O3_snapshot_read_during_write() {
+	ctx := context.Background()
+	fill := verif.Choose("fill", 2) == 1
+	eng := vNewEngine(fill)
+	hist := 1 + verif.Choose("history", 2)
+	s := vSetupLake(ctx, eng, hist, 0)
+	tip := s.tip()
+	// the setup's Delete has already persisted the snapshot of c1, not of the tip
+	ha, err := vOpenClient(ctx, eng, 1)
+	verif.Assert(err == nil, "open-a")
+	hb, err := vOpenClient(ctx, eng, 2)
+	verif.Assert(err == nil, "open-b")
+	bDone, inWindow, preempted := false, false, false
+	var snapB *commits.Snapshot
+	var errB error
+	readB := func() {
+		bDone = true
+		snapB, errB = hb.pool.commits.Snapshot(ctx, tip)
+	}
+	eng.hook = func() {
+		if bDone {
+			return
+		}
+		if verif.Choose("preempt", 2) == 1 {
+			preempted = true
+			inWindow = strings.HasPrefix(eng.lastOp, "put-trunc:") && strings.HasSuffix(eng.lastOp, ".snap.zng")
+			readB()
+		}
+	}
+	snapA, errA := ha.pool.commits.Snapshot(ctx, tip)
+	eng.hook = nil
+	if !bDone {
+		readB()
+	}
+	verif.Observe("preempted", preempted)
+	verif.Observe("in-window", inWindow)
+	verif.Assert(errA == nil && vSameSnap(snapA, s.state), "writer-sees-commit-contents")
+	if inWindow {
+		verif.Reach("read-inside-truncate-write-window")
+		verif.Assert(errB == nil && vSameSnap(snapB, s.state), "reader-sees-commit-contents/snap-truncated")
+	} else {
+		verif.Assert(errB == nil && vSameSnap(snapB, s.state), "reader-sees-commit-contents")
+	}
+	// B again with its warm cache, and a cold third client
+	snapB2, err := hb.pool.commits.Snapshot(ctx, tip)
+	if inWindow {
+		verif.Assert(err == nil && vSameSnap(snapB2, s.state), "reader-sees-commit-contents-again/snap-truncated")
+	} else {
+		verif.Assert(err == nil && vSameSnap(snapB2, s.state), "reader-sees-commit-contents-again")
+	}
+	hc, err := vOpenClient(ctx, eng, 3)
+	verif.Assert(err == nil, "open-c")
+	if err == nil {
+		snapC, err := hc.pool.commits.Snapshot(ctx, tip)
+		verif.Assert(err == nil && vSameSnap(snapC, s.state), "later-reader-sees-commit-contents")
+	}
+	verif.Assert(eng.files[vPoolDir(ha.pool, CommitsTag)+tip.String()+".snap.zng"] != nil, "snapshot-file-persisted")
+	verif.Reach("end")
+}
+
+// ---------------------------------------------------------------------------
+// C14-O7 branch histories against the loaded-minus-deleted model
+// ---------------------------------------------------------------------------
+
+func vBranchHistory(n int) {
+	ctx := context.Background()
+	eng := vNewEngine(false)
+	s := vSetupLake(ctx, eng, 1, 0)
+	h, err := vOpenClient(ctx, eng, 1)
+	verif.Assert(err == nil, "open")
+	chain := append([]ksuid.KSUID(nil), s.chain...)
+	states := append([]vObjSet(nil), s.states...)
+	st := s.state
+	fresh := 2
+	for step := 0; step < n; step++ {
+		var op *vOp
+		switch k := verif.Choose("op", 6); k {
+		case 0:
+			op = &vOp{kind: vOpLoad, obj: fresh, h: h}
+			fresh++
+		case 1, 2:
+			op = &vOp{kind: vOpDelete, obj: k - 1, h: h}
+		case 3:
+			op = &vOp{kind: vOpCompact, dels: []int{0, 1}, adds: []int{5}, h: h}
+		default:
+			// revert the first (k == 4) or the latest (k == 5) commit
+			i := 0
+			if k == 5 {
+				i = len(chain) - 1
+			}
+			op = &vOp{kind: vOpRevert, commit: chain[i], h: h}
+			var before vObjSet
+			if i > 0 {
+				before = states[i-1]
+			}
+			for j := range before {
+				if states[i][j] && !before[j] {
+					op.adds = append(op.adds, j)
+				}
+				if !states[i][j] && before[j] {
+					op.dels = append(op.dels, j)
+				}
+			}
+		}
+		next := st
+		valid := op.apply(&next)
+		op.run(ctx, eng)
+		verif.Assert(valid || op.err != nil, "invalid-operation-refused")
+		verif.Assert(!valid || op.err == nil, "valid-operation-accepted")
+		if op.err == nil {
+			st = next
+			chain = append(chain, op.id)
+			states = append(states, st)
+		} else {
+			verif.Reach("refused")
+		}
+		// the branch as seen by the writer's warm handle and by a cold one
+		f, err := vOpenClient(ctx, eng, 9)
+		verif.Assert(err == nil, "reopens")
+		if err != nil {
+			return
+		}
+		for _, r := range []*vHandle{h, f} {
+			got, tip, ok := vChain(ctx, r)
+			verif.Assert(ok && len(got) == len(chain) && tip == chain[len(chain)-1], "tip-is-the-last-acknowledged-commit")
+			snap, err := r.pool.commits.Snapshot(ctx, tip)
+			verif.Assert(err == nil, "branch-readable")
+			verif.Assert(err != nil || vSameSnap(snap, st), "contents-are-loaded-minus-deleted")
+			// every earlier commit still reads as it did (C13)
+			for i, id := range chain {
+				snap, err := r.pool.commits.Snapshot(ctx, id)
+				verif.Assert(err == nil && vSameSnap(snap, states[i]), "earlier-commits-unchanged")
+			}
+		}
+	}
+	verif.Reach("end")
+}
+
+// verif:desc C14-O7 histories through the real lake.Branch API over model storage (one client): after c1 = load of {0,1}, a sequence of operations from {load of a new object, delete 0, delete 1, CommitCompact {0,1}->{5}, revert of the first commit, revert of the latest commit}; after every step the branch contents read through commits.Store.Snapshot by the writer's warm handle and by a fresh cold handle (reading the persisted snapshot files) equal the model (loaded minus deleted; revert/compact per their definition), an operation is accepted iff it is valid on the current contents (delete/compact of an absent object, revert with nothing to revert are refused and change nothing), and every earlier commit id still reads as it did.
+// verif:bounds 2 operations after c1 (36 histories); object metadata fixed; atomic-put storage, no failures
+// verif:outside data object files and the scanner (lake.Writer, meta.Lister: goroutine driven), DeleteWhere (query compiler), vectors, vacuum
+func VerifH_C14_O7_branch_history() { vBranchHistory(2) }
+
+// verif:desc C14-O7 (deeper) as VerifH_C14_O7_branch_history with 3 operations
+// verif:bounds 3 operations after c1 (216 histories)
+// verif:outside as VerifH_C14_O7_branch_history
+// verif:tier thorough
+func VerifH_C14_O7_branch_history_deep() { vBranchHistory(3) }
